@@ -198,6 +198,18 @@ def _emit_type(asm, out, kind, kv, maps, drops, adds=()):
     dropped_derives = [d for d in derives if d not in keep]
     body = code[kwpos.start():]
     body = re.sub(r'#\[[^\]]*\]', '', body)
+    if kind == 'enum' and kv.get('keep'):
+        keep_v = kv['keep'].split(',')
+        vs = _variants_of(body)
+        names = [v for v, _ in vs]
+        for kname in keep_v:
+            if kname not in names:
+                raise ExtractError("enum %s no longer has variant %s" % (kv['name'], kname))
+        kept = ['    %s%s,' % (v, '(%s)' % t if t else '') for v, t in vs if v in keep_v]
+        head = body[:body.index('{') + 1]
+        body = head + '\n' + '\n'.join(kept) + '\n    %s,\n}' % kv.get('other', 'Other')
+        asm.dropped.append('%s: %d variants not named by the extracted bodies collapsed into `%s`: %s'
+                           % (kv['name'], len(vs) - len(kept), kv.get('other', 'Other'), ', '.join(v for v in names if v not in keep_v)))
     for f in drops:
         body, n = re.subn(r'\n[^\n]*\b%s\s*:[^\n]*,' % re.escape(f), '', body)
         if n != 1:
@@ -445,12 +457,13 @@ def _emit_fn(asm, out, unit, kv, block, default_props):
                 raise ExtractError("bad subst directive in %s: %s" % (fname, t))
             a = m.group(1).replace('\\"', '"')
             b = m.group(2).replace('\\"', '"')
-            n = body.count(a) + sig.count(a)
+            pat = re.compile(r'\s*'.join(re.escape(x) for x in a.split()))   # whitespace-insensitive, otherwise literal
+            n = len(pat.findall(body)) + len(pat.findall(sig))
             want = int(m.group(4)) if m.group(4) else None
             if n == 0 or (want is not None and n != want):
                 raise ExtractError("subst site %r: expected %s occurrence(s) in %s, found %d" % (a, want or '>=1', fname, n))
-            body = body.replace(a, b)
-            sig = sig.replace(a, b)
+            body = pat.sub(lambda _m: b, body)
+            sig = pat.sub(lambda _m: b, sig)
             asm.rewrites.append(('subst %r => %r' % (a, b), fname, n))
         elif t.startswith('requires '):
             requires.append(t[9:].strip())
